@@ -165,6 +165,8 @@ def check_meta_faults(cases):
         if p not in w.files or (p[:len(w.export)] == w.export):
             continue            # a directory entry (skipped anyway) or an export image (not a candidate removal)
         v = copy.copy(w); v.meta_faults = []; v.files = {q: x for q, x in w.files.items() if q != p}; v.tag = "without " + repr(p)
+        v.symlinks = {q: t for q, t in w.symlinks.items() if tuple(t) != p and q != p}       # links to the removed file go with it
+        v.modes = {q: m for q, m in getattr(w, "modes", {}).items() if q != p}
         ok = False
         for _ in range(3):
             base = W.execute(v)
@@ -365,12 +367,12 @@ def presentations_compatible(base, other, rounds=5):
         bs.add(idle(base.world)); os_.add(idle(other.world))
     return False
 
-EXTRA_MODULES = {"C14": ["TB.Props.C14run"], "C03": ["TB.Props.C03frame"], "C17": ["TB.Props.C17run", "TB.Props.C17scan", "TB.Props.TopLevel"],
+EXTRA_MODULES = {"C14": ["TB.Props.C14run", "TB.Props.Outcome"], "C03": ["TB.Props.C03frame"], "C17": ["TB.Props.C17run", "TB.Props.C17scan", "TB.Props.TopLevel"],
                  "C01": ["TB.Props.C01bytes", "TB.Props.TopLevel"],
                  "C11": ["TB.Props.C01bytes", "TB.Props.C04h", "TB.Props.C04hist", "TB.Props.C02chain", "TB.Props.TopLevel"],
-                 "C02": ["TB.Props.C02run", "TB.Props.C02chain", "TB.Props.TopLevel"], "C16": ["TB.Props.C16run", "TB.Props.C16total"],
+                 "C02": ["TB.Props.C02run", "TB.Props.C02chain", "TB.Props.TopLevel"], "C16": ["TB.Props.C16run", "TB.Props.C16total", "TB.Props.Outcome"],
                  "C04": ["TB.Props.C04a", "TB.Props.C04c", "TB.Props.C04h", "TB.Props.C04hist", "TB.Props.C06layout", "TB.Props.TopLevel"],
-                 "C15": ["TB.Props.C04a", "TB.Props.C04c", "TB.Props.C02chain"], "C12": ["TB.Props.C06layout"],
+                 "C15": ["TB.Props.C04a", "TB.Props.C04c", "TB.Props.C02chain", "TB.Props.Outcome"], "C12": ["TB.Props.C06layout"],
                  "C05": ["TB.Props.C05writes"], "C06": ["TB.Props.C06layout"]}
 
 PROPS = {
